@@ -29,7 +29,7 @@ _FN_NAMES = {
 }
 _IDENTITY_FNS = {"numpy.array", "numpy.asarray", "numpy.asanyarray", "numpy.ascontiguousarray", "numpy.copy",
                  "numpy.float64", "float", "numpy.complex128", "complex", "numpy.atleast_1d"}
-_IDENTITY_METHODS = {"copy", "astype", "view"}
+_IDENTITY_METHODS = {"copy", "astype", "view", "item"}
 _ARRAY_METHODS_AS_FN = {"conj": "conj", "conjugate": "conj", "sum": "sum", "mean": "mean", "min": "min", "max": "max",
                         "argmin": "argmin", "argmax": "argmax", "any": "any", "all": "all", "clip": "clip",
                         "reshape": "reshape", "ravel": "ravel", "std": "std", "var": "var", "round": "round",
@@ -286,6 +286,23 @@ def _is_new_param(fi, name):
     return known is not None and name not in known["params"]
 
 
+def _renamed_from(fi, i, names):
+    """the documented name of positional slot i when the current name is new and the documented one no longer sits in a positional slot"""
+    _is_new_param(fi, "")
+    known = _API_SNAPSHOT.get(getattr(fi, "qualname", None))
+    if known is None:
+        return None
+    off = 1 if names and names[0] in ("self", "cls") and (not known["params"] or known["params"][0] not in ("self", "cls")) else 0
+    j = i - off
+    if 0 <= j < len(known["params"]):
+        old = known["params"][j]
+        a_ = fi.node.args
+        star = {x.arg for x in (a_.vararg, a_.kwarg) if x is not None}
+        if old not in names and old not in star:
+            return old
+    return None
+
+
 def _api_snapshot():
     _is_new_param(None, "")
     return _API_SNAPSHOT
@@ -333,6 +350,7 @@ class Interp:
         self.unroll_literal_loops = True           # execute `for row in <literal table>` row by row instead of abstracting the loop
         self.stop_at_calls: set = set()            # dotted callee names at which a top-level path is cut (counts as a return)
         self._leaf_cache = {}
+        self.finite_domain = False                 # the property is about finite samples: nan_to_num is the identity, isfinite(...) holds
         self.tag_draws = False                     # number the random draws so that two calls with equal arguments stay two values
         self._draws = 0
         self.domain_pred = None                    # optional callable(callee, [arg values]) -> True / False / None: a predicate decided by the property's domain
@@ -443,12 +461,17 @@ class Interp:
         if bound_self is not None and not _is_static(node):
             argv = [bound_self] + argv
         used_kw = set()
+        renamed_old = set()
         for i, nm in enumerate(names):
             if i < len(argv):
                 st.env[nm] = argv[i]
             elif nm in kwargs:
                 st.env[nm] = kwargs[nm]
                 used_kw.add(nm)
+            elif top and _is_new_param(fi, nm) and _renamed_from(fi, i, names) is not None and nm not in self.param_values and nm not in self.param_classes and nm not in self.assumptions:
+                # the same positional slot under a new name (the old spelling kept as a deprecated keyword): it is the documented parameter
+                st.env[nm] = Form.sym(_renamed_from(fi, i, names))
+                renamed_old.add(_renamed_from(fi, i, names))
             elif top and defaults[i] is not None and _is_new_param(fi, nm) and nm not in self.param_values and nm not in self.param_classes and nm not in self.assumptions:
                 # a parameter the documented API (snapshot of the pinned commit) does not have: an option added later.  The
                 # properties are stated for the calls that existed before it did, so it keeps its default (like keyword-only options)
@@ -464,6 +487,8 @@ class Interp:
             if nm in kwargs:
                 st.env[nm] = kwargs[nm]
                 used_kw.add(nm)
+            elif top and nm in renamed_old and d is not None:
+                st.env[nm] = self._eval_default(fi, d)       # the deprecated spelling of a renamed positional parameter: not used by the documented calls
             elif top and (nm in self.param_values or nm in self.param_classes or nm in self.assumptions or d is None):
                 st.env[nm] = self._top_param(fi, nm, d)
             elif d is not None:
@@ -1215,6 +1240,8 @@ class Interp:
                 return res if isinstance(op, ast.Is) else not res
             if isinstance(op, (ast.Eq, ast.NotEq)):
                 res = self._eq(l, r, st)
+                if res is None and self.domain_sign is not None and isinstance(l, Form) and isinstance(r, Form) and self.domain_sign(l - r) in (1, -1):
+                    res = False          # strictly apart on the property's domain
                 if res is None:
                     return None
                 return res if isinstance(op, ast.Eq) else not res
@@ -1231,7 +1258,12 @@ class Interp:
                 if self.domain_sign is not None and isinstance(l, Form) and isinstance(r, Form):
                     # a fact of the property's domain about the sign of l - r (e.g. "the full-scale range has positive width")
                     sg = self.domain_sign(l - r)
-                    if sg is not None:
+                    if sg in ("ge0", "le0"):
+                        # one-sided knowledge: l - r >= 0 decides `<` and `>=` only (and symmetrically)
+                        dec = {("ge0", ast.Lt): False, ("ge0", ast.GtE): True, ("le0", ast.Gt): False, ("le0", ast.LtE): True}.get((sg, type(op)))
+                        if dec is not None:
+                            return dec
+                    elif sg is not None:
                         return {ast.Lt: sg < 0, ast.LtE: sg <= 0, ast.Gt: sg > 0, ast.GtE: sg >= 0}[type(op)]
                 return None
             return None
@@ -1631,6 +1663,9 @@ class Interp:
                         # x == int(x): x is integer-valued on this path, so a later int(x) is x
                         if isinstance(a, Form) and isinstance(b, Form) and a.const_value() is None and b == mk_fn("int", [a]):
                             st.facts.truth[mk_fn("__integral__", [a]).key()] = True
+                            for nm_, val_ in list(st.env.items()):
+                                if isinstance(val_, Form) and val_ == b:
+                                    st.env[nm_] = a          # a local computed as int(a) before the test holds a itself
                     for a, b in ((l, r), (r, l)):
                         cv = self._const_of(b, st)
                         if isinstance(a, Form) and a.const_value() is None and cv is not _MISSING:
@@ -1841,6 +1876,8 @@ class Interp:
                 return Const(not t)
             return mk_fn("not", [as_value(v)])
         if isinstance(n.op, ast.Invert):
+            if isinstance(v, Const) and isinstance(v.v, bool) and self.finite_domain:
+                return Const(not v.v)          # ~ of a numpy truth value (a folded isnan / isfinite mask) is its negation
             if isinstance(v, ObjV):
                 r = self._call_method(v, "__invert__", [], {}, st, fi, depth, n)
                 if r is not None:
@@ -2064,6 +2101,8 @@ class Interp:
         if isinstance(base, Form) and isinstance(idx, Form) and idx.single_atom() and idx.single_atom()[0] == "fn" and idx.single_atom()[1] in ("argmin", "argmax") \
                 and len(idx.single_atom()[2]) == 1 and not idx.single_atom()[3] and vkey(idx.single_atom()[2][0]) == vkey(base):
             return mk_fn(idx.single_atom()[1][3:], [base])      # y[y.argmin()] is y.min()
+        if isinstance(base, Form) and isinstance(idx, Const) and idx.v is True and self.finite_domain:
+            return base       # x[mask] with a mask that holds everywhere (x[~np.isnan(x)] for finite x)
         if isinstance(base, Form) and _selects_all(idx):
             return base   # x[:] (and x[:, :]) is x as a value; aliasing is the business of the effect analysis
         if isinstance(idx, Form):
@@ -2329,6 +2368,15 @@ class Interp:
                 return Form.atom(("fn", name, tuple(map(as_value, args)), tuple(sorted((k, as_value(v)) for k, v in kwargs.items()))))
         if name in ("numpy.any", "numpy.all") and len(args) == 1 and not kwargs and isinstance(args[0], Const) and isinstance(args[0].v, bool):
             return args[0]
+        if name in ("bool", "builtins.bool") and len(args) == 1 and not kwargs:
+            v = args[0]
+            if isinstance(v, Const) and isinstance(v.v, bool):
+                return v
+            tv = self._truthy(v, st) if isinstance(v, (Const, Form)) else None
+            if tv is not None:
+                return Const(bool(tv))          # a flag whose truth is known on this path
+            return mk_fn("bool", [as_value(v)])
+
         if name in _IDENTITY_FNS and args:
             if name in ("float", "complex", "numpy.float64") and isinstance(args[0], Const):
                 return mk_fn(name, [args[0]])
@@ -2340,12 +2388,44 @@ class Interp:
                     return VecV(v.items)
                 return mk_fn("array", [v])
             return v
+        if self.finite_domain and name == "numpy.nan_to_num" and args and isinstance(args[0], Form):
+            return args[0]
+        if self.finite_domain and name in ("numpy.isfinite",) and len(args) == 1 and not kwargs:
+            return Const(True)
+        if self.finite_domain and name in ("numpy.isnan", "numpy.isinf") and len(args) == 1 and not kwargs:
+            return Const(False)
+        if name == "numpy.where" and len(args) == 3 and not kwargs and isinstance(args[1], Form) and isinstance(args[2], Form) and args[2].rational() is not None:
+            # a literal column mask [[m0], [m1], ...] selects whole rows: the rows it switches off hold the scalar
+            m_ = args[0]
+            ma_ = m_.single_atom() if isinstance(m_, Form) else None
+            if ma_ is not None and ma_[0] == "fn" and ma_[1] in ("array", "asarray") and len(ma_[2]) == 1:
+                m_ = ma_[2][0]
+            rows_ = list(m_.items) if isinstance(m_, (TupleV, VecV)) else None
+            if rows_ and len(rows_) <= 4 and all(isinstance(r_, (TupleV, VecV)) and len(r_.items) == 1 and isinstance(r_.items[0], Const) and isinstance(r_.items[0].v, bool) for r_ in rows_):
+                out_ = args[1]
+                for i_, r_ in enumerate(rows_):
+                    if not r_.items[0].v:
+                        out_ = mk_fn("setitem", [out_, Form.num(i_), args[2]])
+                return out_
+        if name == "numpy.isin" and len(args) == 2 and not kwargs and isinstance(args[0], Form) and isinstance(args[1], (TupleV, VecV)) and 1 <= len(args[1].items) <= 6 \
+                and all(isinstance(i_, Form) and i_.rational() is not None for i_ in args[1].items):
+            # membership in a short literal set is the disjunction of the equalities
+            eqs = [mk_fn("eq", [args[0], i_]) for i_ in args[1].items]
+            out_ = eqs[0]
+            for e_ in eqs[1:]:
+                out_ = mk_fn("bor", [out_, e_])
+            return out_
+        if name == "numpy.broadcast_to" and len(args) == 2 and not kwargs and isinstance(args[0], Form):
+            return args[0]          # the same values seen with another shape (what arithmetic does with the operand anyway)
         if name == "re.sub" and len(args) == 3 and not kwargs and all(isinstance(a_, Const) and isinstance(a_.v, str) for a_ in args):
             import re as _re
             try:
                 return Const(_re.sub(args[0].v, args[1].v, args[2].v))      # a pure function of three constants (option spelling normalised)
             except Exception:
                 pass
+        if name == "numpy.ndim" and len(args) == 1 and not kwargs and isinstance(args[0], Form) and (args[0].rational() is not None or self._integer_valued(args[0], st)
+                                                                                                     or self._isinstance(args[0], ["int", "float"], st) is True):
+            return Form.num(0)           # a number has no axes
         if name in ("numpy.ndim", "numpy.size", "numpy.shape") and len(args) == 1 and not kwargs and isinstance(args[0], (Form, ObjV)):
             try:
                 return self.getattr(args[0], name.split(".")[1], st, fi)      # np.ndim(x) is x.ndim for anything that has axes
@@ -2395,6 +2475,14 @@ class Interp:
         if isinstance(fv, FuncV):
             rec.callee = PKG + "." + fv.fi.qualname
             return self._call_func(fv.fi, args, kwargs, st, fi, depth, n, rec, closure=fv.env, bound_self=fv.bound_self)
+        if isinstance(fv, ClassRef) and fv.name in ("int", "float", "bool", "complex") and len(args) == 1 and not kwargs:
+            # a conversion passed around as a value (`cast=float` ... `cast(x)`) is the conversion
+            rec.callee = fv.name
+            if fv.name == "int":
+                r_ = self._builtin("int", args, kwargs, st, fi, depth, n)
+                if r_ is not None:
+                    return r_
+            return self._dispatch_call(n, fv.name, args, kwargs, st, fi, depth, rec)
         if isinstance(fv, ClassRef):
             rec.callee = f"{PKG}.typing.{fv.name}" if fv.name in SIGNAL_CLASSES else fv.name
             if fv.name in SIGNAL_CLASSES or self._find_class(fv.name):
@@ -2805,11 +2893,21 @@ class Interp:
                 return Const(str(args[0].v))
             if isinstance(args[0], Form) and args[0].rational() is not None and args[0].rational().denominator == 1:
                 return Const(str(int(args[0].rational())))
+            if isinstance(args[0], Form):
+                e_ = st.facts.eq.get(args[0].key())
+                if isinstance(e_, Const) and isinstance(e_.v, str):
+                    return e_            # an option assumed to be this string is its own str()
             return mk_fn("str", [as_value(args[0])])
         if name in ("min", "max") and len(args) >= 2:
             qs = [a.rational() if isinstance(a, Form) else None for a in args]
             if all(q is not None for q in qs):
                 return Form.num(min(qs) if name == "min" else max(qs))
+            if len(args) == 2 and self.domain_sign is not None and isinstance(args[0], Form) and isinstance(args[1], Form):
+                sg = self.domain_sign(args[0] - args[1])        # a >= b on the property's domain: max(a, b) is a, min(a, b) is b
+                if sg in ("ge0", 1, 0):
+                    return args[0] if name == "max" else args[1]
+                if sg in ("le0", -1):
+                    return args[1] if name == "max" else args[0]
         if name in ("list", "tuple") and len(args) == 1:
             if isinstance(args[0], TupleV):
                 return TupleV(args[0].items, name)
